@@ -13,72 +13,8 @@ import json
 import math
 
 from . import common
-from .c01 import (MATS, SCALARS, bits, build, cell_ok, compare_attrs, ctor_words, differs, fail_once, first_principles, fl, flat,
+from .c01 import (MATS, NAMES, SCALARS, apply_op, bits, build, op_words, cell_ok, compare_attrs, ctor_words, differs, fail_once, first_principles, fl, flat,
                   gen_angles, gen_base, gen_lengths, gen_rot, impl_attrs, leanchecker, params_of_base, parse_attrs, repr_class, STRATA)
-
-NAMES = ["a", "b", "c", "alpha", "beta", "gamma"]
-
-
-# ---------------------------------------------------------------------------------------------
-# operations: JSON form, model words, execution on the real objects
-
-def op_words(op):
-    k = op["op"]
-    if k == "new":
-        return "D"
-    if k == "newpar":
-        return ctor_words({"kind": "par", "abcABG": op["abcABG"], "rot": op.get("rot")})
-    if k == "newbase":
-        return "B " + fl(flat(op["base"]))
-    if k == "copy":
-        return "C %d" % op["i"]
-    if k == "recip":
-        return "X %d" % op["i"]
-    if k == "setpar":
-        mask, vals = 0, []
-        for j, n in enumerate(NAMES):
-            if n in op["args"]:
-                mask |= 1 << j
-                vals.append(bits(op["args"][n]))
-        if "baserot" in op["args"]:
-            mask |= 64
-            vals.append(fl(flat(op["args"]["baserot"])))
-        return ("S %d %d %s" % (op["i"], mask, " ".join(vals))).strip()
-    if k == "prop":
-        return "A %d %d %s" % (op["i"], NAMES.index(op["name"]), bits(op["value"]))
-    if k == "setbase":
-        return "L %d %s" % (op["i"], fl(flat(op["base"])))
-    raise ValueError(k)
-
-
-def apply_op(world, op):
-    """execute on real objects; returns index of the touched/created object"""
-    from diffpy.structure.lattice import Lattice
-
-    k = op["op"]
-    if k == "new":
-        world.append(Lattice())
-    elif k == "newpar":
-        world.append(build({"kind": "par", "abcABG": op["abcABG"], "rot": op.get("rot")}))
-    elif k == "newbase":
-        world.append(Lattice(base=op["base"]))
-    elif k == "copy":
-        world.append(Lattice(world[op["i"]]))
-    elif k == "recip":
-        world.append(world[op["i"]].reciprocal())
-    elif k == "setpar":
-        world[op["i"]].setLatPar(**op["args"])
-        return op["i"]
-    elif k == "prop":
-        setattr(world[op["i"]], op["name"], op["value"])
-        return op["i"]
-    elif k == "setbase":
-        world[op["i"]].setLatBase(op["base"])
-        return op["i"]
-    else:
-        raise ValueError(k)
-    return len(world) - 1
-
 
 def valid_refs(ops):
     n = 0
